@@ -209,3 +209,29 @@ Proof. destruct g; vm_compute; reflexivity. Qed.
 Definition d4_inv (g : d4) : d4 := match g with D_r90 => D_r270 | D_r270 => D_r90 | _ => g end.
 Lemma d4_mul_inv g : d4_mul g (d4_inv g) = D_id /\ d4_mul (d4_inv g) g = D_id.
 Proof. destruct g; vm_compute; split; reflexivity. Qed.
+
+Ltac d4_compute :=
+  repeat match goal with
+         | |- context [d4_mul ?a ?b] =>
+             let m := eval vm_compute in (d4_mul a b) in change (d4_mul a b) with m
+         end.
+
+(* involutions, inverse rotations, and every element as a product of the three
+   generators (mirror left-right, mirror top-bottom, transposition) *)
+Theorem block_laws b : wf_blk b ->
+  act D_fh (act D_fh b) = b /\ act D_fv (act D_fv b) = b /\ act D_tr (act D_tr b) = b /\
+  act D_r180 (act D_r180 b) = b /\ act D_tv (act D_tv b) = b /\
+  act D_r270 (act D_r90 b) = b /\ act D_r90 (act D_r270 b) = b /\
+  act D_r90 b = act D_fh (act D_tr b) /\ act D_r270 b = act D_tr (act D_fh b) /\
+  act D_r270 b = act D_fv (act D_tr b) /\ act D_r180 b = act D_fh (act D_fv b) /\
+  act D_tv b = act D_tr (act D_r180 b) /\ act D_tv b = act D_fh (act D_tr (act D_fh b)).
+Proof.
+  intros [Hl Hf].
+  repeat split;
+    repeat (rewrite act_act by (first [exact Hf | apply act_wf; exact Hf]); d4_compute);
+    first [apply act_id; exact Hl | reflexivity].
+Qed.
+
+(* the sign part holds for every coefficient value, -32768 included *)
+Lemma act_fh_min : nth 1%nat (act D_fh (0 :: -32768 :: repeat 5 62)) 0 = -32768.
+Proof. vm_compute. reflexivity. Qed.
